@@ -74,7 +74,7 @@ fn scenarios_for(prop: &str, tier: Tier) -> Vec<Box<dyn Scenario>> {
             v.push(Box::new(ListenerNewScenario { filters: vec![0, 1, 7, 9], depth: tier.pick(6, 8), listener_crash: false }));
             v.push(Box::new(ListenerNewScenario { filters: vec![3, 4, 10], depth: tier.pick(6, 8), listener_crash: false }));
             // a listener connection whose task was dropped is only noticed in the middle of a fan-out
-            v.push(Box::new(ListenerNewScenario { filters: vec![0, 7], depth: tier.pick(6, 8), listener_crash: true }));
+            v.push(Box::new(ListenerNewScenario { filters: vec![0, 7], depth: tier.pick(4, 7), listener_crash: true }));
             if tier == Tier::Thorough {
                 v.push(Box::new(ListenerNewScenario { filters: vec![2, 5, 6, 11], depth: 8, listener_crash: false }));
             }
